@@ -3,6 +3,7 @@ import GateryModel.C17.LemmasTree
 import GateryModel.C17.LemmasArith
 import GateryModel.C17.LemmasCrc
 import GateryModel.C17.LemmasExtra
+import GateryModel.C17.LemmasTreeReg
 /-!
 # C17 — library arithmetic and coding primitives equal their mathematical definitions
 
@@ -127,6 +128,27 @@ theorem priorityEncoderTree_fuel (bps : Nat) (hb : 1 ≤ bps) (bits : List Bool)
 example : peTree 2 18 (ofNat 17 0x10400) = some ⟨5, some 10, true⟩ := by decide
 example : (priorityEncoder (ofNat 17 0x10400)).v = some 10 := by decide
 example : peTree 1 6 (ofNat 5 0) = some ⟨3, none, false⟩ := by decide
+
+/- Pipelined variant `priorityEncoderTree(in, registerStep = true, bps)`.  Full statement (fails, see the witness):
+   `∀ n bps, ∃ L, ∀ input streams, ∀ t, out(t + L) = priorityEncoder(in(t))`.
+   Proved: it holds with `L` = number of register levels whenever the chunking is balanced, i.e. the longest and the shortest
+   path through the tree carry the same number of registers (e.g. every `n` that is a power of `2^bps`). -/
+theorem priorityEncoderTree_registered_partial (bps : Nat) (hb : 1 ≤ bps) (n L : Nat) (hist : Nat → List Bool) (t : Nat)
+    (hlen : ∀ s, (hist s).length = n)
+    (hmax : peTreeDepth bps true (n + 1) n = L) (hmin : peTreeDepth bps false (n + 1) n = L) :
+    ∃ w, peTreeReg bps (n + 1) hist (t + L) = some ⟨w, (priorityEncoder (hist t)).v, (priorityEncoder (hist t)).valid⟩ := by
+  rw [peTreeReg_balanced bps hb (n + 1) n L hist (t + L) hlen (by omega) hmax hmin (by omega), Nat.add_sub_cancel]
+  exact peTree_eq_flat bps hb (n + 1) (hist t) (by rw [hlen]; omega)
+
+example : peTreeDepth 2 true 17 16 = 1 ∧ peTreeDepth 2 false 17 16 = 1 := by decide
+example : peTreeDepth 1 true 33 32 = 4 ∧ peTreeDepth 1 false 33 32 = 4 := by decide
+
+/-- witness: 17 input bits, `bps = 2` (the default): chunks of 8, 8 and 1 bits sit behind 2, 2 and 1 registers.  A word with only
+bit 16 set in cycle 1, zeros otherwise: two cycles later the output is "invalid" — the word is lost. -/
+theorem priorityEncoderTree_registered_witness :
+    peTreeDepth 2 true 18 17 = 2 ∧ peTreeDepth 2 false 18 17 = 1 ∧
+    peTreeReg 2 18 (fun s => if s = 1 then ofNat 17 0x10000 else ofNat 17 0) 3 = some ⟨5, none, false⟩ ∧
+    (priorityEncoder (ofNat 17 0x10000)).v = some 16 := by decide
 
 /-! ## count leading zeros -/
 
